@@ -34,6 +34,10 @@ def build(desc, s):
         elif desc["cmdsrc"] == "defempty":
             td["commands"] = {"definitions": {c: {} for c in cmds}}
         targets.append(td)
+    if desc.get("order") == "reversed":
+        targets = list(reversed(targets))   # declaration order differs from alphabetical order
+    elif desc.get("order") == "rotated":
+        targets = targets[1:] + targets[:1]
     r = sc.Repo(s, "r", targets)
     expect_exe = {}
     for t in names:
@@ -147,10 +151,13 @@ def scenarios(tier):
         for cmdsrc in ("default", "custompath", "defpath", "defempty"):
             for o in ([None, ["m1", "m2"], ["m2", "m1"]] if tier == "quick" else opts):
                 for cmds in (["build"], ["build", "test"]):
-                    for n in ((2,) if tier == "quick" else (1, 2, 3)):
+                    for n in ((3,) if tier == "quick" else (1, 2, 3)):
                         files = [{"base": "args", "m1": "args", "m2": "args" if i % 2 == 0 else None} for i in range(n)]
-                        out.append({"targets": n, "commands": cmds, "files": files, "argmaps_opt": o, "no_base": False,
-                                    "args": None, "argdir": argdir, "cmdsrc": cmdsrc, "vocab": plain})
+                        for order in ("declared", "reversed", "rotated"):
+                            if order != "declared" and (n == 1 or (tier == "quick" and o is not None and cmds == ["build", "test"])):
+                                continue
+                            out.append({"targets": n, "commands": cmds, "files": files, "argmaps_opt": o, "no_base": False,
+                                        "args": None, "argdir": argdir, "cmdsrc": cmdsrc, "vocab": plain, "order": order})
     # (2b) selection modes: dependencies pulled in by --deps (not named in -t) get their argmaps too
     for select in ("last+deps", "all+deps", "explicit"):
         for n in (2, 3):
@@ -192,7 +199,7 @@ def run(prop, tier):
     agg = {"evaluations": sum(r["evaluations"] for r in results), "distinct_nontrivial": sum(r["nontrivial"] for r in results),
            "violations": [v for r in results for v in r["violations"]], "samples": [r["sample"] for r in results[:: max(1, len(results) // 4)]][:5],
            "exhaustive": True,
-           "rule": "(1) per-target presence lattice {absent, without the command, with args}^3 for base/m1/m2 x --argmaps in {-, m1, m2, m1 m2, m2 m1, m1 missing} x --no-base-argmaps, two targets with complementary files; (2) argmap directory {default, custom} x command source {default dir, custom commands.path, explicit definition path with a decoy in the default dir, empty definition} x argmap orders x 1-2 commands x 1-3 targets; (2b) dependency chains selected by -t <last> --deps, -t <all> --deps and -t <all>; (3) --args values from the argument alphabet with one command and one explicit target; (4) every alphabet string in every slot class and all combinations of a 2-string vocabulary over the four slots; each case = one real run with traced children; oracle: argv[1..] == base ++ argmaps in order ++ args verbatim, cwd == target directory, argv[0] == resolved executable; non-trivial = runs whose expected argv is non-empty"}
+           "rule": "(1) per-target presence lattice {absent, without the command, with args}^3 for base/m1/m2 x --argmaps in {-, m1, m2, m1 m2, m2 m1, m1 missing} x --no-base-argmaps, two targets with complementary files; (2) argmap directory {default, custom} x command source {default dir, custom commands.path, explicit definition path with a decoy in the default dir, empty definition} x argmap orders x 1-2 commands x 1-3 targets x declaration order {alphabetical, reversed, rotated}; (2b) dependency chains selected by -t <last> --deps, -t <all> --deps and -t <all>; (3) --args values from the argument alphabet with one command and one explicit target; (4) every alphabet string in every slot class and all combinations of a 2-string vocabulary over the four slots; each case = one real run with traced children; oracle: argv[1..] == base ++ argmaps in order ++ args verbatim, cwd == target directory, argv[0] == resolved executable; non-trivial = runs whose expected argv is non-empty"}
     by = {}
     for v in agg["violations"]:
         by[v["sig"]] = by.get(v["sig"], 0) + 1
